@@ -48,7 +48,7 @@ def c18_arity(out):
     return obl
 
 
-def c11_into(out):
+def c11_into(out, nv=2):
     """`Into` is emitted exactly for string literals and paths; `_` / no attribute gives no value"""
     eng = engine()
     obl = e3.Obligations("C11")
@@ -78,7 +78,65 @@ def c11_into(out):
         kind = exprs[m.eval(d, model_completion=True).as_long()]
         out.violation("into-table|%s" % kind, "-", "HelperAttributeForDefault::value: wrong %s decision for a default expression of kind Expr::%s (Lit kind %s)" % (
             info, kind, lits[m.eval(l, model_completion=True).as_long()]))
+    obl.failed = []
+    c11_enum_rules(out, obl, nv)
+    for label, m, info in obl.failed:
+        if label.startswith("coverage"):
+            out.broken.append("build_default_for_enum: path conditions do not cover the configuration space")
+            continue
+        _, ex2, n, has, val, tv = info
+        tvb = lambda e: z3.is_true(m.eval(e, model_completion=True))
+        k = m.eval(n, model_completion=True).as_long()
+        vs = []
+        for v in range(k):
+            at = ""
+            if tvb(has[v]):
+                at = "#[default(7)] " if tvb(val[v]) else "#[default] "
+            vs.append("%sV%d(u8)" % (at, v))
+        item = "%senum X { %s }" % ("#[default(X::V0(1))] " if tvb(tv) else "", ", ".join(vs))
+        nh = sum(1 for v in range(k) if tvb(has[v]))
+        ref = (not tvb(tv)) and (nh >= 2 or (nh == 0 and k != 1) or any(tvb(has[v]) and tvb(val[v]) for v in range(k)) and nh == 1)
+        case = {"property": "C11", "kind": "reject", "mode": "attr", "attr": "Default", "item": item, "expected_reject": ref,
+                "explain": "enum default-variant rules"}
+        from . import replay_e3
+        obs = replay_e3.observe(case)
+        path = e3.write_replay("C11", "enum-rules-%d" % len(out.violations), case)
+        if replay_e3.disagrees(case, obs):
+            out.violation("default-enum-rules|%s" % common.norm(item)[:80], path, "macro %s but the documentation says %s: #[derive_ex(Default)] %s" % (
+                "rejects" if obs["rejected"] else "accepts", "reject" if ref else "accept", item))
+        else:
+            out.broken.append("UNCONFIRMED counterexample for the enum default-variant rules: %s" % item)
     return obl
+
+
+def c11_enum_rules(out, obl, nv=3):
+    """build_default_for_enum refuses exactly: no #[default] variant (unless the enum has a single variant), several of them, or a value on the variant's attribute;
+    a type-level value makes all of that irrelevant"""
+    eng = engine()
+    ex = eng.executor(slice_bound=nv, opaque_local={"WhereClauseBuilder::new", "WhereClauseBuilder::build", "GenericParamSet::contains_in_type", "DeriveItemKind::to_path",
+                                                     "build_ctor_args"})
+    fn = eng.find("build_default_for_enum")
+    pre = [z3.Not(ex.bvar("hattrs.default.<Some>.0.bounds.default")), z3.Not(ex.bvar("e.bounds_this.default")),
+           ex.ivar("disc(hattrs.items.{agg:DeriveItemKind::Default()})", 0, 1) == 0]
+    res = ex.run(fn, eng.args_for(fn), pre=pre)
+    obl.note_paths("build_default_for_enum", res, ex)
+    stuck = [r for r in res if r.kind != "return"]
+    for r in stuck[:1]:
+        out.inconclusive.append("fn=build_default_for_enum reason=%s %s" % (r.kind, r.value))
+    pres = lambda p: ex.ivar("disc(%s)" % p, 0, 1) == 1
+    n = ex.ivar("len(variants)", 0, nv)
+    tv = z3.And(pres("hattrs.default"), pres("hattrs.default.<Some>.0.value"))
+    has = [z3.And(n > v, pres("variants.[%d].hattrs.default" % v)) for v in range(nv)]
+    val = [pres("variants.[%d].hattrs.default.<Some>.0.value" % v) for v in range(nv)]
+    count = z3.Sum([z3.If(h, 1, 0) for h in has])
+    sel_value = z3.Or([z3.And(count == 1, has[v], val[v]) for v in range(nv)])
+    reject = z3.And(z3.Not(tv), z3.Or(count >= 2, z3.And(count == 0, n != 1), sel_value))
+    for r in res:
+        if r.kind != "return":
+            continue
+        obl.check_unsat(ex, "default-enum:rejection-rules", list(r.pc) + [reject if not is_err(r) else z3.Not(reject)], info=("enum-rules", ex, n, has, val, tv), keep_smt=True)
+    if not stuck:
+        e3.coverage_check(ex, obl, "build_default_for_enum", res, pre=pre)
 
 
 def c10_transparent(out):
